@@ -73,10 +73,16 @@ def explore(ctx, tier, search=False):
         rng = ctx.rng(label)
         ops = cs.gen_grid_ops(rng, rng.randint(1, 6))
         if i % 4 == 3:
-            ops = ops + cs.gen_history(rng, rng.randint(1, 3))
-            rng.shuffle(ops)
-            ops = [o for o in ops if o[0] != "derive"] if False else ops
-        ops = _fix_targets(ops)
+            # interleave a short sequence history, keeping its own operations in order (a derivation refers to the
+            # columns of an earlier result, so the history must not be reordered)
+            hist = cs.gen_history(rng, rng.randint(1, 3))
+            merged, a, b = [], list(ops), list(hist)
+            while a or b:
+                if a and (not b or rng.random() < len(a) / (len(a) + len(b))):
+                    merged.append(a.pop(0))
+                else:
+                    merged.append(b.pop(0))
+            ops = merged
         sim, hr, case = one_history(ctx, label, 0, ops=ops, output_grid=(i % 3 != 2), fresh=False)
         cases.append((sim.model_line(), sim.impl_output(), case))
     ctx.correspond("proxy heap: observables of all live objects after every event + GET log", cases)
